@@ -161,16 +161,45 @@ class Flow:
             self._pos = {id(x): i for i, x in enumerate(self.stmts)}
         return self._pos.get(id(st), getattr(st, "lineno", 0) * 1000)
 
-    def live_under(self, st, assume):
-        """False when the guards of statement `st` contradict the assumptions (condition text -> truth value)"""
+    def decide_under(self, test, assume, at=None, stop=()):
+        """truth value of `test` under the assumptions (condition text -> truth value), or None if undecided.  Temporaries
+        in the test are looked through; not / and / or are evaluated three-valued."""
+        at = at if at is not None else test
+        t = norm(self.resolve_under(test, assume, at=at, stop=stop)) if not isinstance(test, ast.Constant) else norm(test)
+        for k, v in assume.items():
+            if t == k or norm(test) == k:
+                return v
+        if isinstance(test, ast.Constant):
+            return bool(test.value)
+        if isinstance(test, ast.UnaryOp) and isinstance(test.op, ast.Not):
+            d = self.decide_under(test.operand, assume, at, stop)
+            return None if d is None else (not d)
+        if isinstance(test, ast.BoolOp):
+            ds = [self.decide_under(v, assume, at, stop) for v in test.values]
+            if isinstance(test.op, ast.And):
+                if any(d is False for d in ds):
+                    return False
+                return True if all(d is True for d in ds) else None
+            if any(d is True for d in ds):
+                return True
+            return False if all(d is False for d in ds) else None
+        if isinstance(test, ast.Name):
+            r = self.single_def_value(test.id, at)
+            if r is not None and test.id not in stop:
+                return self.decide_under(r[0], assume, r[1], stop)
+        neg = norm(ast.UnaryOp(op=ast.Not(), operand=clone(test)))
+        tneg = norm(ast.UnaryOp(op=ast.Not(), operand=ast.parse(str(t), mode="eval").body)) if t else None
+        for k, v in assume.items():
+            if neg == k or (tneg is not None and tneg == k):
+                return not v
+        return None
+
+    def live_under(self, st, assume, stop=()):
+        """False when the guards of statement `st` (including earlier guard clauses) contradict the assumptions"""
         for test, pol in guard_chain(st, implicit=True):
-            t = norm(self.resolve(test, at=test))
-            for k, v in assume.items():
-                neg = norm(ast.UnaryOp(op=ast.Not(), operand=clone(test)))
-                if (t == k or norm(test) == k) and v != pol:
-                    return False
-                if neg == k and (not v) != pol:
-                    return False
+            d = self.decide_under(test, assume, at=test, stop=stop)
+            if d is not None and d != pol:
+                return False
         return True
 
     def resolve_under(self, expr, assume, at=None, depth=6, stop=()):
@@ -624,3 +653,132 @@ def straight_env(fnode, stop=(), upto=None, limit=1500):
                     if k is not None:
                         env.pop(k, None)
     return env
+
+
+def const_str(e, env=None):
+    """value of a string expression built from constants (and names bound in env to constants): 'a' + 'b', f'{p}x', '%s_x' % p"""
+    env = env or {}
+    if isinstance(e, ast.Constant) and isinstance(e.value, str):
+        return e.value
+    if isinstance(e, ast.Name) and e.id in env and isinstance(env[e.id], str):
+        return env[e.id]
+    if isinstance(e, ast.BinOp) and isinstance(e.op, ast.Add):
+        a, b = const_str(e.left, env), const_str(e.right, env)
+        return a + b if a is not None and b is not None else None
+    if isinstance(e, ast.JoinedStr):
+        out = ""
+        for v in e.values:
+            if isinstance(v, ast.Constant):
+                out += str(v.value)
+            elif isinstance(v, ast.FormattedValue) and v.format_spec is None and v.conversion == -1:
+                s_ = const_str(v.value, env)
+                if s_ is None:
+                    return None
+                out += s_
+            else:
+                return None
+        return out
+    if isinstance(e, ast.BinOp) and isinstance(e.op, ast.Mod) and isinstance(e.left, ast.Constant) and isinstance(e.left.value, str):
+        args = e.right.elts if isinstance(e.right, ast.Tuple) else [e.right]
+        vals = [const_str(a, env) for a in args]
+        if any(v is None for v in vals):
+            return None
+        try:
+            return e.left.value % tuple(vals)
+        except Exception:
+            return None
+    return None
+
+
+def dict_entries(e, flow=None, at=None, depth=4):
+    """[(key string, value expression)] of a dict-valued expression that is statically a table: a literal, `{**a, **b}`,
+    dict(k=v, **a), a dict comprehension over the items of such a table with a constant-foldable key.  None otherwise."""
+    if depth <= 0:
+        return None
+    if isinstance(e, ast.Name) and flow is not None:
+        r = flow.single_def_value(e.id, at if at is not None else e)
+        return dict_entries(r[0], flow, r[1], depth - 1) if r else None
+    if isinstance(e, ast.Dict):
+        out = []
+        for k, v in zip(e.keys, e.values):
+            if k is None:
+                sub = dict_entries(v, flow, at, depth - 1)
+                if sub is None:
+                    return None
+                out.extend(sub)
+            else:
+                ks = const_str(k)
+                if ks is None:
+                    return None
+                out.append((ks, v))
+        return out
+    if isinstance(e, ast.Call) and isinstance(e.func, ast.Name) and e.func.id == "dict":
+        out = []
+        for a in e.args:
+            sub = dict_entries(a, flow, at, depth - 1)
+            if sub is None:
+                return None
+            out.extend(sub)
+        for k in e.keywords:
+            if k.arg is None:
+                sub = dict_entries(k.value, flow, at, depth - 1)
+                if sub is None:
+                    return None
+                out.extend(sub)
+            else:
+                out.append((k.arg, k.value))
+        return out
+    if isinstance(e, ast.DictComp) and len(e.generators) == 1 and not e.generators[0].ifs:
+        g = e.generators[0]
+        it = g.iter
+        if isinstance(it, ast.Call) and isinstance(it.func, ast.Attribute) and it.func.attr == "items" and not it.args \
+                and isinstance(g.target, ast.Tuple) and len(g.target.elts) == 2 and all(isinstance(x, ast.Name) for x in g.target.elts):
+            base = dict_entries(it.func.value, flow, at, depth - 1)
+            if base is None:
+                return None
+            kn, vn = g.target.elts[0].id, g.target.elts[1].id
+            out = []
+            for ks, v in base:
+                k2 = const_str(e.key, {kn: ks})
+                if k2 is None:
+                    return None
+
+                class S(ast.NodeTransformer):
+                    def visit_Name(self, n):
+                        if isinstance(n.ctx, ast.Load) and n.id == vn:
+                            return clone(v)
+                        if isinstance(n.ctx, ast.Load) and n.id == kn:
+                            return ast.Constant(value=ks)
+                        return n
+                out.append((k2, S().visit(clone(e.value))))
+            return out
+    return None
+
+
+def closed_form(expr, stmt, stop=()):
+    """`expr` (evaluated at statement `stmt`) with the locals assigned earlier in the same block replaced by their closed
+    forms (assignments and augmented assignments folded; see straight_env)"""
+    blk_owner = parent(stmt)
+    block = None
+    for fld in ("body", "orelse", "finalbody"):
+        b = getattr(blk_owner, fld, None)
+        if isinstance(b, list) and any(x is stmt for x in b):
+            block = b
+    if block is None:
+        return clone(expr)
+
+    class _B:
+        pass
+    holder = _B()
+    holder.body = block
+    env = straight_env(holder, stop=stop, upto=stmt)
+
+    class Sub(ast.NodeTransformer):
+        def visit_Name(self, n):
+            if isinstance(n.ctx, ast.Load) and n.id in env:
+                return clone(env[n.id])
+            return n
+
+        def visit_Lambda(self, n):
+            return n
+    return ast.fix_missing_locations(Sub().visit(clone(expr)))
